@@ -102,13 +102,14 @@ func (a *AES128CBC) SerializeTo(b gopacket.SerializeBuffer, _ gopacket.Serialize
 	}
 	trailer[padLength] = uint8(padLength)
 
-	toEncrypt := b.Bytes() // includes confidentiality trailer
-
 	// secure random IV for confidentiality header
 	iv, err := b.PrependBytes(a.cipher.BlockSize())
 	if err != nil {
 		return err
 	}
+	// must be taken after prepending, which may move the buffer's contents to
+	// a new array; includes confidentiality trailer
+	toEncrypt := b.Bytes()[a.cipher.BlockSize():]
 	if _, err := rand.Read(iv); err != nil {
 		return err
 	}
